@@ -341,3 +341,28 @@ Proof.
   intros [Hl _] [Hr _]. destruct (Nat.ltb_spec 255 (wire_len l + (wire_len r + 1))); [discriminate|].
   intros _. split; [apply Forall_app; split; assumption|]. rewrite wire_len_app. lia.
 Qed.
+
+(* ---- chain_root / UncertainName::chain *)
+Theorem chain_root_spec n : valid_rel n -> n_chain_root (wire_rel n) = Ok (wire_abs n) /\ valid_abs n.
+Proof.
+  intros Hv. split; [|exact Hv]. destruct Hv as [_ Hl]. unfold n_chain_root, chain_new, chain_ge, chain_lim, name_max.
+  rewrite exceeds_gt, wire_rel_length. destruct (Nat.ltb_spec 255 (wire_len n + 1)); [lia|]. reflexivity.
+Qed.
+
+(* a consequence of the known 255-octet relative names: chain_root panics on them *)
+Theorem chain_root_255_panics w : length w = 255%nat -> n_chain_root w = Panic 14.
+Proof. intros H. unfold n_chain_root, chain_new, chain_ge, chain_lim, name_max. rewrite H. reflexivity. Qed.
+
+Theorem unc_chain_valid l r w : valid_abs r ->
+  (valid_abs l /\ unc_chain true (wire_abs l) (wire_abs r) = Ok w -> w = wire_abs l) /\
+  (valid_rel l /\ unc_chain false (wire_rel l) (wire_abs r) = Ok w -> w = wire_abs (l ++ r) /\ valid_abs (l ++ r)).
+Proof.
+  intros Hr. split.
+  - intros [_ H]. unfold unc_chain, chain_new_uncertain in H. cbn in H. injection H as <-. reflexivity.
+  - intros [Hl H]. unfold unc_chain in H. cbn [negb] in H.
+    destruct (chain_new_uncertain true (length (wire_rel l)) (length (wire_abs r))) as [[]|e|p|] eqn:E; try discriminate.
+    cbn [bind] in H. injection H as <-. rewrite wire_rel_length, wire_abs_length in E.
+    split.
+    + unfold wire_abs. rewrite wire_rel_app, app_assoc. reflexivity.
+    + apply chain_uncertain_valid; auto. replace (wire_len r + 1)%nat with (S (wire_len r)) by lia. exact E.
+Qed.
